@@ -90,8 +90,73 @@ pub fn text_of_len(rng: &mut Rng, len: usize, alphabet: &[&str]) -> String {
     s
 }
 
+/// String literals of the code under test (non-test sources, harvested at run time like a fuzzer's
+/// dictionary): a value that the code compares a field with ("application/octet-stream", a magic client
+/// id, …) is far more likely to matter than a random text.
+pub fn dictionary() -> &'static [String] {
+    static D: std::sync::OnceLock<Vec<String>> = std::sync::OnceLock::new();
+    D.get_or_init(|| {
+        let mut out: Vec<String> = Vec::new();
+        let root = std::path::Path::new(concat!(env!("CARGO_MANIFEST_DIR"), "/../../repo/src"));
+        let mut stack = vec![root.to_path_buf()];
+        while let Some(d) = stack.pop() {
+            let rd = match std::fs::read_dir(&d) {
+                Ok(r) => r,
+                Err(_) => continue,
+            };
+            for e in rd.flatten() {
+                let p = e.path();
+                if p.is_dir() {
+                    if p.file_name().map(|n| n != "tests").unwrap_or(true) {
+                        stack.push(p);
+                    }
+                } else if p.extension().map(|x| x == "rs").unwrap_or(false) {
+                    if let Ok(src) = std::fs::read_to_string(&p) {
+                        let src = src.split("#[cfg(test)]").next().unwrap_or("").to_string();
+                        let b = src.as_bytes();
+                        let mut i = 0;
+                        while i < b.len() {
+                            if b[i] == b'/' && i + 1 < b.len() && b[i + 1] == b'/' {
+                                while i < b.len() && b[i] != b'\n' {
+                                    i += 1;
+                                }
+                            } else if b[i] == b'"' {
+                                let mut j = i + 1;
+                                let mut lit = String::new();
+                                let mut ok = true;
+                                while j < b.len() && b[j] != b'"' {
+                                    if b[j] == b'\\' {
+                                        ok = false;
+                                        j += 1;
+                                    } else if b[j] == b'{' || b[j] == b'\n' || !b[j].is_ascii() {
+                                        ok = false;
+                                    } else {
+                                        lit.push(b[j] as char);
+                                    }
+                                    j += 1;
+                                }
+                                if ok && lit.len() >= 2 && lit.len() <= 64 {
+                                    out.push(lit);
+                                }
+                                i = j;
+                            }
+                            i += 1;
+                        }
+                    }
+                }
+            }
+        }
+        out.sort();
+        out.dedup();
+        out
+    })
+}
+
 pub fn gen_text(rng: &mut Rng, sz: Sizes) -> String {
     let len = pick_len(rng, sz);
+    if UNIFORM_LEN.with(|u| u.get()).is_none() && !dictionary().is_empty() && rng.chance(1, 14) {
+        return rng.pick(dictionary()).clone();
+    }
     text_of_len(rng, len, &CHARS)
 }
 
@@ -937,6 +1002,20 @@ pub fn sweep_v5(thorough: bool) -> Vec<v5::Packet> {
             }));
             out.push(Packet::Unsubscribe(Unsubscribe { pid: Pid::try_from(4).unwrap(), properties: UnsubscribeProperties { user_properties: ups }, topics: vec![TopicFilter::try_from("a".to_string()).unwrap()] }));
         }
+        // the same `Bytes` buffer in two binary fields (an echo / RPC message: correlation data = payload)
+        let buf = Bytes::from(vec![0x5au8; 9]);
+        out.push(Packet::Publish(Publish { dup: false, retain: false, qos_pid: QosPid::Level0, topic_name: name(2), payload: buf.clone(), properties: PublishProperties { correlation_data: Some(buf.clone()), ..Default::default() } }));
+        out.push(Packet::Connect(Connect {
+            protocol: Protocol::V500,
+            clean_start: true,
+            keep_alive: 0,
+            properties: ConnectProperties { auth_data: Some(buf.clone()), auth_method: Some(k.clone()), ..Default::default() },
+            client_id: k.clone(),
+            last_will: Some(LastWill { qos: QoS::Level0, retain: false, topic_name: name(2), payload: buf.clone(), properties: WillProperties { correlation_data: Some(buf.clone()), ..Default::default() } }),
+            username: Some(k.clone()),
+            password: Some(buf.clone()),
+        }));
+        out.push(Packet::Auth(Auth { reason_code: AuthReasonCode::ContinueAuthentication, properties: AuthProperties { auth_method: Some(k.clone()), auth_data: Some(buf), reason_string: Some(k.clone()), user_properties: vec![] } }));
     }
     for n in sweep_counts() {
         if n > 0 {
